@@ -172,13 +172,6 @@ several servers counts once -/
 def presentOf (answers : List (Nat × Nat)) (uebTotal : Option Nat) : Bool :=
   alreadyPresent (answers.map (·.2)) uebTotal
 
-/-- the tempting simplification "count the share files": NOT what the code does (see
-`Tahoe.C44.counting_files_counterexample`) -/
-def presentByFileCount (answers : List (Nat × Nat)) (uebTotal : Option Nat) : Bool :=
-  match uebTotal with
-  | none => false
-  | some total => !(answers.length < total)
-
 /-- `Helper.remote_upload_chk` / `_did_chk_check`: either results and no upload helper (nothing will be
 written), or an upload helper (existing active one, or a new one) -/
 inductive Answer
